@@ -158,6 +158,7 @@ pzgstrf_column_dfs(
 		/* Otherwise, perform dfs starting at krep */
 		parent[krep] = EMPTY;
 		repfnz[krep] = kperm;
+		SLU_MT_VEV(VE_DFS_VISIT, pnum, krep, &ispruned[krep]);
 		if ( ispruned[krep] ) {
 		    if ( SINGLETON( supno[krep] ) )
 			xdfs = xlsub_end[krep];
@@ -211,6 +212,7 @@ pzgstrf_column_dfs(
 				    parent[chrep] = krep;
 				    krep = chrep; /* Go deeper down G(L^t) */
 				    repfnz[krep] = chperm;
+				    SLU_MT_VEV(VE_DFS_VISIT, pnum, krep, &ispruned[krep]);
 				    if ( ispruned[krep] ) {
 					if ( SINGLETON( supno[krep] ) )
 					    xdfs = xlsub_end[krep];
@@ -296,12 +298,14 @@ pzgstrf_column_dfs(
      */
     if ( samesuper == NO ) { /* starts a new supernode */
 	nsuper = NewNsuper(pnum, pxgstrf_shared, &Glu->nsuper);
+	SLU_MT_VEV(VE_NEWSUPER, pnum, jcol, nsuper);
 	xsup[nsuper] = jcol;
 	
 	/* Copy column jcol; also reserve space to store pruned graph */
 	if ((mem_error = Glu_alloc(pnum, jcol, 2*no_lsub, LSUB, &ito, 
 				  pxgstrf_shared)))
 	    return mem_error;
+	SLU_MT_VEV(VE_LSUB_ALLOC, pnum, jcol, ito);
 	xlsub[jcol] = ito;
 	lsub = Glu->lsub;
 	for (ifrom = 0; ifrom < nextl; ++ifrom) {
